@@ -222,10 +222,10 @@ def r4_context_siblings(ck, cx):
 
 def run(ck, tier):
     cx = Ctx()
-    r1_fx(ck, cx)
-    r2_execute(ck, cx)
-    r3_mask_write(ck, cx)
-    r4_context_siblings(ck, cx)
+    ck.guard(r1_fx, ck, cx)
+    ck.guard(r2_execute, ck, cx)
+    ck.guard(r3_mask_write, ck, cx)
+    ck.guard(r4_context_siblings, ck, cx)
     ck.assume('histories are not decided: that a read returns the latest write follows from R2 + C18 shapes, it is not itself checked')
     ck.assume('only the in-memory ModbusSlaveContext is analysed, not arbitrary datastore implementations')
     return cx.idx
